@@ -264,7 +264,16 @@ func c20Field(r *core.Run, g guardedField) {
 			})
 		}
 		sp.Visit = visit
-		sp.Analyze(f)
+		// a helper that never takes the lock itself and is only ever called with it held (loadEntry called by the
+		// lookup between Lock and Unlock) starts with what all its callers hold
+		switch lockedEntry(w, owner, g, f, 0) {
+		case "W":
+			sp.AnalyzeSeed(f, func(st *flow.State) { st.SetTag("held"); st.SetTag("heldW") })
+		case "R":
+			sp.AnalyzeSeed(f, func(st *flow.State) { st.SetTag("held") })
+		default:
+			sp.Analyze(f)
+		}
 		ast.Inspect(f.Decl.Body, func(x ast.Node) bool {
 			c, ok := x.(*ast.CallExpr)
 			if ok && stdMethod(core.Callee(info, c), "sync", "Once", "Do") {
@@ -284,6 +293,87 @@ func c20Field(r *core.Run, g guardedField) {
 	if n == 0 {
 		r.Bad("C20.guarded", "accessors of "+name, "", "no accessor found")
 	}
+}
+
+// lockedEntry: "W" / "R" when f is called (statically, not through `go`, `defer` of a later time or as a value) only
+// from functions of its package and every one of those calls is made with the guarding lock held for writing /
+// at least for reading; "" otherwise. Callers that are such helpers themselves are followed two levels up.
+func lockedEntry(w *core.World, owner *types.Named, g guardedField, f *core.FuncInfo, depth int) string {
+	if depth > 2 || f.Obj.Exported() && core.RecvNamed(f.Obj) == nil {
+		return ""
+	}
+	cs := w.Callers(f.Obj)
+	if len(cs) == 0 || len(w.ValueCallers(f.Obj)) > 0 {
+		return ""
+	}
+	level := "W"
+	byCaller := map[*core.FuncInfo][]*ast.CallExpr{}
+	for _, c := range cs {
+		if c.Caller.Pkg != f.Pkg || c.InGo || c.Iface || c.Table {
+			return ""
+		}
+		if w.IsTestFile(c.Caller.Decl.Pos()) {
+			continue
+		}
+		byCaller[c.Caller] = append(byCaller[c.Caller], c.Call)
+	}
+	if len(byCaller) == 0 {
+		return ""
+	}
+	for caller, calls := range byCaller {
+		if caller == f {
+			continue
+		}
+		lc := lockClassifier(w, owner, g)
+		sp := &flow.Spec{W: w, Depth: 0, Classify: func(pkg *packages.Package, call *ast.CallExpr, callee *types.Func) []flow.Tag {
+			for _, c := range calls {
+				if c == call {
+					return []flow.Tag{"tohelper"}
+				}
+			}
+			return lc(pkg, call, callee)
+		}}
+		var res *flow.Result
+		switch lockedEntry(w, owner, g, caller, depth+1) {
+		case "W":
+			res = sp.AnalyzeSeed(caller, func(st *flow.State) { st.SetTag("held"); st.SetTag("heldW") })
+		case "R":
+			res = sp.AnalyzeSeed(caller, func(st *flow.State) { st.SetTag("held") })
+		default:
+			res = sp.Analyze(caller)
+		}
+		points := append([]*flow.CallPoint{}, res.Calls...)
+		ast.Inspect(caller.Decl.Body, func(n ast.Node) bool {
+			if lit, ok := n.(*ast.FuncLit); ok {
+				// a literal is analysed from nothing: the lock has to be taken inside it
+				points = append(points, sp.AnalyzeLit(caller.Pkg, lit).Calls...)
+			}
+			return true
+		})
+		seen := map[*ast.CallExpr]bool{}
+		for _, cp := range points {
+			if !inSet("tohelper", cp.Tags...) {
+				continue
+			}
+			if cp.Defer {
+				return ""
+			}
+			seen[cp.Call] = true
+			switch {
+			case cp.Before.Has("heldW"):
+			case cp.Before.Has("held"):
+				level = "R"
+			default:
+				return ""
+			}
+		}
+		for _, c := range calls {
+			if !seen[c] {
+				return ""
+			}
+		}
+	}
+	return level
 }
 
 // requestRoots: entry points that run concurrently after initialisation.
